@@ -84,6 +84,17 @@ PROPS['C02'] = dict(
     explanation='kernel: token-table obligations (SMT, all strings); the rest of the property is a bounded stand-in (see coverage.bounded)',
     not_decided=['parser token accounting (every consumed token is in the tree) as a proof', 'printer visitors'],
 )
+PROPS['C03'] = dict(
+    modules=['specs.quoting', 'contracts.quoting'],
+    bounded=['bounded.quoting'],
+    level='other',
+    design_ref='DESIGN.md §4 C03',
+    technique='deductive (kernel): VCs from the real AST of the quoting layer (ninja_quote, NinjaRule._quoter, gcc_rsp_quote, Backend.escape_extra_args) against the quoting decision table; quote/unquote round trips against models of ninja, sh and gcc response files bounded-exhaustive',
+    level_text='Proved for all strings: a newline is always an error in ninja_quote, otherwise exactly one substitution with the pattern for the position; the four quoting modes of _quoter (shell quoting first, ninja escaping outermost); response-file quoting doubles backslashes then shell-quotes; escape_extra_args keeps count and order and doubles backslashes exactly in -D//D arguments (loop invariant). That the quoted text is read back as the original argument is checked against MODELS of the external consumers, bounded.',
+    level_note='Assumed: re.sub / str.replace / shlex.quote as uninterpreted functions; the consumer models (ninja $-evaluation, POSIX sh via shlex, libiberty buildargv) are models of programs outside /repo. NOT decided: which call sites of the 4000-line backend route every argument through these functions; as_meson_exe_cmdline and substitute_values are not under contract yet.',
+    explanation='kernel clauses proved on the quoting functions; round trips against consumer models bounded; call-site coverage of the backend not decided',
+    not_decided=['every argument of every command position is routed through the quoting layer', 'pickled exe wrapper path (as_meson_exe_cmdline, meson_exe.run_exe)', '@TEMPLATE@ substitution (substitute_values)'],
+)
 
 # properties with no check yet or outside the technique, each with the reason
 NOT_APPLICABLE = {
